@@ -137,6 +137,36 @@ func c18Build(a c18Attr) slog.Attr {
 	return slog.Attr{Key: a.K, Value: v}
 }
 
+// c18AttrShape describes attributes WITHOUT resolving anything: kinds, keys and nesting exactly as the caller built them. The
+// attributes (and the member slices behind group values, which slog hands out without copying) belong to the caller: a
+// handler must leave them as they are, so that the same attributes can be logged again and LogValuers are asked again.
+func c18AttrShape(as []slog.Attr) string {
+	var b strings.Builder
+	var walk func(v slog.Value)
+	walk = func(v slog.Value) {
+		switch v.Kind() {
+		case slog.KindGroup:
+			b.WriteString("G(")
+			for _, m := range v.Group() {
+				b.WriteString(m.Key + ":")
+				walk(m.Value)
+				b.WriteString(",")
+			}
+			b.WriteString(")")
+		case slog.KindLogValuer:
+			b.WriteString("LV")
+		default:
+			b.WriteString(v.Kind().String() + "=" + v.String())
+		}
+	}
+	for _, a := range as {
+		b.WriteString(a.Key + ":")
+		walk(a.Value)
+		b.WriteString(";")
+	}
+	return b.String()
+}
+
 func c18BuildAll(as []c18Attr) []slog.Attr {
 	out := make([]slog.Attr, 0, len(as))
 	for _, a := range as {
@@ -235,6 +265,7 @@ func c18Prog(op c18Op) Result {
 	derivedFrom := map[int]int{} // handler index → number of children
 	ctx := context.Background()
 	outs := []c18Out{}
+	attrsModified := ""
 	o := ok()
 	// one verdict per op: keep the rarest class, so that a frequent finding does not hide another one
 	rank := func(sig string) int {
@@ -266,7 +297,12 @@ func c18Prog(op c18Op) Result {
 					feat["g0"] = true
 				}
 			} else {
-				nh = handlers[st.On].WithAttrs(c18BuildAll(st.Attrs))
+				mine := c18BuildAll(st.Attrs)
+				shape := c18AttrShape(mine)
+				nh = handlers[st.On].WithAttrs(mine)
+				if now := c18AttrShape(mine); now != shape {
+					attrsModified = fmt.Sprintf("WithAttrs changed the caller's attributes: %q → %q", shape, now)
+				}
 				c18Features(st.Attrs, feat)
 			}
 			handlers = append(handlers, nh)
@@ -298,8 +334,13 @@ func c18Prog(op c18Op) Result {
 			}
 			en := h.Enabled(hctx, slog.Level(st.Lvl))
 			r := slog.NewRecord(time.Time{}, slog.Level(st.Lvl), "m", 0)
-			r.AddAttrs(c18BuildAll(st.Attrs)...)
+			mine := c18BuildAll(st.Attrs)
+			shape := c18AttrShape(mine)
+			r.AddAttrs(mine...)
 			herr := h.Handle(hctx, r)
+			if now := c18AttrShape(mine); now != shape {
+				attrsModified = fmt.Sprintf("Handle changed the caller's attributes: %q → %q", shape, now)
+			}
 			out := c18Out{Enabled: en}
 			lines := bytes.Count(recBuf.Bytes(), []byte("\n"))
 			var line recLine
@@ -339,6 +380,9 @@ func c18Prog(op c18Op) Result {
 		default:
 			panic("unknown step " + st.T)
 		}
+	}
+	if attrsModified != "" && o.OK {
+		o = bad("C18:caller-attrs-modified", "%s", attrsModified)
 	}
 	return Result{Impl: map[string]any{"out": outs}, Oracle: o, Nontrivial: nontrivial, Shape: c18Shape(op, feat)}
 }
